@@ -156,6 +156,6 @@ def crc_bitwise(poly: int, init: int, rev: bool, xor_out: int, data: bytes) -> i
 from vf.api import Range  # noqa: E402
 
 
-@uninterpreted(result=Range(0, (1 << 32) - 1))
+@uninterpreted(result=Range(0, (1 << 32) - 1), upper=lambda poly, init, rev, xor_out, data: (1 << (poly.bit_length() - 1)) - 1)
 def CRC(poly, init, rev, xor_out, data):
     return crc_bitwise(poly, init, rev, xor_out, bytes(data))
